@@ -18,6 +18,7 @@ import (
 const (
 	c07FootprintSlack = 8
 	c07TickSlack      = 16
+	c07WorkSlack      = 64
 	c07HardCap   = 40000
 )
 
@@ -382,6 +383,19 @@ func (p *c07) Run(c *verifsim.Chooser, st *Stats, render bool) *Outcome {
 		L.e.SetVariable("g3", &object.String{Value: "s"})
 	}
 
+	// a second long-lived evaluator with another script, used in between (two
+	// filters served by one process): nothing it does may reach L
+	var M *evalSide
+	if mode == 0 && c.Intn(4) == 1 {
+		mt := GenScript(c, GenCfg{Funcs: true, Faults: true, Hashes: true}).Text
+		if c.Intn(3) == 1 {
+			mt = text // the same text, separately prepared
+		}
+		if m, err, esc := newSide(mt, c.Bool()); err == nil && esc == nil {
+			M = m
+			st.probe("second-evaluator-interleaved")
+		}
+	}
 	all := append(append([]string{}, globals...), scoped...)
 	lastFault, lastWhere := "none", "main"
 	nfaults := 0
@@ -438,6 +452,18 @@ func (p *c07) Run(c *verifsim.Chooser, st *Stats, render bool) *Outcome {
 		}
 		if r.SetVar != "" {
 			L.e.SetVariable(r.SetVar, r.SetVal)
+		}
+		if M != nil && c.Bool() {
+			mr := &c07Run{Maybe: []bool{c.Bool(), c.Bool()}}
+			mr.Obj, mr.ObjDesc = genObject(c)
+			switch c.Intn(4) {
+			case 1:
+				mr.Fault, mr.K = "cancel", c.Intn(60)
+			case 2:
+				mr.Fault, mr.K = "host-panic-any", c.Intn(4)
+			}
+			M.arm(mr)
+			M.exec(mr)
 		}
 		if mode == 0 && i > 0 && c.Intn(8) == 1 {
 			// the host's user edits the filter: the new text goes into the
@@ -540,6 +566,12 @@ func (p *c07) Run(c *verifsim.Chooser, st *Stats, render bool) *Outcome {
 		if obs == "" && L.ctx.Ticks > F.ctx.Ticks+c07TickSlack {
 			obs, detail = "ticks", fmt.Sprintf("the reused evaluator needed %d ticks, the fresh one %d", L.ctx.Ticks, F.ctx.Ticks)
 		}
+		if obs == "" && L.ctx.Work > F.ctx.Work+c07WorkSlack {
+			// the work clock sees what one tick hides: the cost of built-ins,
+			// conversions and look-ups inside an instruction
+			obs, detail = "work", fmt.Sprintf("the reused evaluator needed %d work units (loop iterations and calls inside the value and built-in code), the fresh one %d", L.ctx.Work, F.ctx.Work)
+		}
+		st.max("work_units_reused_minus_fresh", L.ctx.Work-F.ctx.Work)
 		if obs == "" && L.e.VerifScopes() != F.e.VerifScopes() && L.e.VerifScopes() >= 0 {
 			obs, detail = "scopes", fmt.Sprintf("open scopes after the run: reused %d, fresh %d", L.e.VerifScopes(), F.e.VerifScopes())
 		}
